@@ -487,6 +487,9 @@ pub struct Layout {
     /// Namespace declarations are in scope on the element and all its descendants. `plain()` = `Workbook`.
     /// (C01, seeded C01-m8)
     pub rel_decl: RelDecl,
+    /// write the `<row>` elements in a shuffled order (each then carries its `r`): schema-valid, and what the readers
+    /// must not depend on. Off in `plain()` and in `random()`; set by the callers whose oracle is order-free.
+    pub shuffle_rows: bool,
 }
 
 impl Layout {
@@ -521,6 +524,7 @@ impl Layout {
             pct_row_style: 0,
             row_style_count: 0,
             rel_decl: RelDecl::Workbook,
+            shuffle_rows: false,
         }
     }
     /// every knob randomised (legal variations only)
@@ -559,6 +563,7 @@ impl Layout {
             pct_row_style: *own.pick(&[0u8, 0, 40, 100]),
             row_style_count: 0,
             rel_decl: *own.pick(&[RelDecl::Workbook, RelDecl::Workbook, RelDecl::Sheets, RelDecl::Sheet, RelDecl::Split]),
+            shuffle_rows: false,
         }
     }
     /// short description for counters / failure signatures
@@ -742,15 +747,28 @@ pub fn render_sheet(sheet: &XlsxSheet, l: &Layout, rng: &mut Rng, sst: &mut Sst)
         out.push(Ev::Other(sheet.extra_before_sheet_data.clone()));
     }
     out.push(start(&l.q("sheetData"), &[]));
+    // the rows in the order they are written
+    let mut row_spans: Vec<(usize, usize)> = vec![];
+    {
+        let mut i = 0;
+        while i < written.len() {
+            let r = written[i].0 .0;
+            let mut j = i;
+            while j < written.len() && written[j].0 .0 == r {
+                j += 1;
+            }
+            row_spans.push((i, j));
+            i = j;
+        }
+    }
+    if l.shuffle_rows {
+        let mut own = Rng::new(l.seed ^ 0x5a17_0f0f ^ sheet.name.len() as u64);
+        own.shuffle(&mut row_spans);
+    }
     // reader cursor
     let mut row_index: u32 = 0;
-    let mut i = 0;
-    while i < written.len() {
+    for (i, j) in row_spans {
         let r = written[i].0 .0;
-        let mut j = i;
-        while j < written.len() && written[j].0 .0 == r {
-            j += 1;
-        }
         ws(l, rng, &mut out);
         if roll(rng, l.pct_noise) {
             out.push(Ev::Other("<!-- row -->".into()));
@@ -805,7 +823,6 @@ pub fn render_sheet(sheet: &XlsxSheet, l: &Layout, rng: &mut Rng, sst: &mut Sst)
         ws(l, rng, &mut out);
         out.push(end(&l.q("row")));
         row_index = r + 1;
-        i = j;
     }
     ws(l, rng, &mut out);
     out.push(end(&l.q("sheetData")));
